@@ -32,6 +32,8 @@ class C02(ProgProp):
         tabs = c09.tables(x)
         chain = [(vt, n) for vt, n in c09.cpython_chain(tabs) if (2, 0) <= vt < (3, 6)]
         for i, (vt, n) in enumerate(chain):
+            if vt == (2, 7):
+                continue            # (2.7 has an interpreter: the differential covers it)
             for name, ranges in sorted(c09.HISTORY.items()):
                 if not any(lo <= vt <= hi for lo, hi in ranges):
                     continue
